@@ -16,8 +16,9 @@ Groups (a property module lists the ones it relies on in `JIT_TWIN`):
   voigt     minerals.voigt_averages and diagnostics.elasticity_components
   diag      symmetry_pgr, bingham_average, coaxial_index on 7 ... 9001 (thorough 65537) grains, finite_strain
   update    whole texture-update histories (Mineral.update_orientations / update_all through LSODA)
-  large_update  (compiled only, too slow interpreted) updates of aggregates of 8200 (thorough: up to 70000) grains with the
-            clauses of C01 / C05 / C06 evaluated in the worker
+  large_update  (compiled only, too slow interpreted) updates of aggregates of 8200 (thorough: 4100 ... 10000) grains with the
+            clauses of C01 / C05 / C06 evaluated in the worker (SciPy's LSODA reserves work space quadratic in the state size, which
+            bounds the aggregate size a user can integrate at all: 10000 grains = 100009 unknowns is near that limit)
 """
 from __future__ import annotations
 
@@ -209,7 +210,7 @@ def _p_large_update(prop, rng, thorough):
     from . import solver
 
     out = []
-    for n, regime in ([(8200, 4)] if not thorough else [(4100, 4), (8200, 4), (8200, 6), (16400, 4), (70000, 4)]):
+    for n, regime in ([(8200, 4)] if not thorough else [(4100, 4), (8200, 4), (8200, 6), (10000, 4)]):
         sc = solver.make_scenario(rng, int(rng.integers(0, 100)), nmax=4, regimes=(regime,), fields=["const", "time"])
         if n != 4100:      # olivine (enstatite has no boundary migration in the model: equal strain energies)
             sc.update(phase=0, fabric=int(rng.integers(0, 5)))
